@@ -430,6 +430,15 @@ func executeFilter(memoryTriples map[string]*triple.Triple, pQuery *predicate.Pr
 	}
 }
 
+// localOptions returns a private copy of the lookup options received from the
+// caller. The driver completes the copy (LatestAnchor is implemented through
+// FilterOptions) and never writes to the caller's value, which may be shared by
+// concurrent lookups.
+func localOptions(lo *storage.LookupOptions) *storage.LookupOptions {
+	c := *lo
+	return &c
+}
+
 // SortByString sorts the coming triples by string and maps the strings back to triples on st
 // to put it on channel.
 func SortByString(selectedTrpls, st map[string]*triple.Triple, strObs *[]string) error {
@@ -459,6 +468,7 @@ func (m *memory) Objects(ctx context.Context, s *node.Node, p *predicate.Predica
 	defer m.rwmu.RUnlock()
 	defer close(objs)
 
+	lo = localOptions(lo)
 	ckr := newChecker(lo, p)
 	selectedTrpls := applyGlobalTimeBounds(m.idxSP[spIdx], ckr)
 
@@ -512,6 +522,7 @@ func (m *memory) Subjects(ctx context.Context, p *predicate.Predicate, o *triple
 	defer m.rwmu.RUnlock()
 	defer close(subjs)
 
+	lo = localOptions(lo)
 	ckr := newChecker(lo, p)
 	selectedTrpls := applyGlobalTimeBounds(m.idxPO[poIdx], ckr)
 
@@ -567,6 +578,7 @@ func (m *memory) PredicatesForSubjectAndObject(ctx context.Context, s *node.Node
 	defer m.rwmu.RUnlock()
 	defer close(prds)
 
+	lo = localOptions(lo)
 	ckr := newChecker(lo, nil)
 	selectedTrpls := applyGlobalTimeBounds(m.idxSO[soIdx], ckr)
 
@@ -620,6 +632,7 @@ func (m *memory) PredicatesForSubject(ctx context.Context, s *node.Node, lo *sto
 	defer m.rwmu.RUnlock()
 	defer close(prds)
 
+	lo = localOptions(lo)
 	ckr := newChecker(lo, nil)
 	selectedTrpls := applyGlobalTimeBounds(m.idxS[sUUID], ckr)
 
@@ -673,6 +686,7 @@ func (m *memory) PredicatesForObject(ctx context.Context, o *triple.Object, lo *
 	defer m.rwmu.RUnlock()
 	defer close(prds)
 
+	lo = localOptions(lo)
 	ckr := newChecker(lo, nil)
 	selectedTrpls := applyGlobalTimeBounds(m.idxO[oUUID], ckr)
 
@@ -726,6 +740,7 @@ func (m *memory) TriplesForSubject(ctx context.Context, s *node.Node, lo *storag
 	defer m.rwmu.RUnlock()
 	defer close(trpls)
 
+	lo = localOptions(lo)
 	ckr := newChecker(lo, nil)
 	selectedTrpls := applyGlobalTimeBounds(m.idxS[sUUID], ckr)
 
@@ -779,6 +794,7 @@ func (m *memory) TriplesForPredicate(ctx context.Context, p *predicate.Predicate
 	defer m.rwmu.RUnlock()
 	defer close(trpls)
 
+	lo = localOptions(lo)
 	ckr := newChecker(lo, p)
 	selectedTrpls := applyGlobalTimeBounds(m.idxP[pUUID], ckr)
 
@@ -832,6 +848,7 @@ func (m *memory) TriplesForObject(ctx context.Context, o *triple.Object, lo *sto
 	defer m.rwmu.RUnlock()
 	defer close(trpls)
 
+	lo = localOptions(lo)
 	ckr := newChecker(lo, nil)
 	selectedTrpls := applyGlobalTimeBounds(m.idxO[oUUID], ckr)
 
@@ -887,6 +904,7 @@ func (m *memory) TriplesForSubjectAndPredicate(ctx context.Context, s *node.Node
 	defer m.rwmu.RUnlock()
 	defer close(trpls)
 
+	lo = localOptions(lo)
 	ckr := newChecker(lo, p)
 	selectedTrpls := applyGlobalTimeBounds(m.idxSP[spIdx], ckr)
 
@@ -942,6 +960,7 @@ func (m *memory) TriplesForPredicateAndObject(ctx context.Context, p *predicate.
 	defer m.rwmu.RUnlock()
 	defer close(trpls)
 
+	lo = localOptions(lo)
 	ckr := newChecker(lo, p)
 	selectedTrpls := applyGlobalTimeBounds(m.idxPO[poIdx], ckr)
 
@@ -1003,6 +1022,7 @@ func (m *memory) Triples(ctx context.Context, lo *storage.LookupOptions, trpls c
 	defer m.rwmu.RUnlock()
 	defer close(trpls)
 
+	lo = localOptions(lo)
 	ckr := newChecker(lo, nil)
 	selectedTrpls := applyGlobalTimeBounds(m.idx, ckr)
 
